@@ -387,6 +387,13 @@ func (c *codegen) analyzeFuncAndGlobalVarUsage() funcUsage {
 					return false // Program is invalid.
 				}
 
+				// A package can have several init() functions, each of them is a root of
+				// the traversal; give them distinct keys so that a later one doesn't replace
+				// an earlier one in nodeCache.
+				if isInitFunc(n) {
+					name = fmt.Sprintf("%s#%d", name, len(nodeCache))
+				}
+
 				// exported functions and methods are always assumed to be used
 				if isMain && n.Name.IsExported() || isInitFunc(n) || isDeployFunc(n) {
 					diff[name] = true
